@@ -407,7 +407,17 @@ def _(repo):
             f"(* p = zeros(n).at[:n_start].set(1 / n_start) *)\nDefinition gen_rar_ctor_active (n_start : Z) : Z := n_start.")
 
 
+class _LiveModuleBranch(ast.NodeTransformer):
+    """`if isinstance(data, eqx.Module): A else: B` -> A (the generators are equinox modules; B is a legacy path)"""
+    def visit_If(self, n):
+        self.generic_visit(n)
+        if ast.unparse(n.test) == "isinstance(data, eqx.Module)":
+            return n.body
+        return n
+
+
 def _branch(fn, test_src):
+    fn = _LiveModuleBranch().visit(copy.deepcopy(fn))
     for s in ast.walk(fn):
         if isinstance(s, ast.If):
             cur = s
@@ -923,8 +933,7 @@ def _(repo):
     return f"Definition gen_from_str_field_by_field : bool := {'true' if ok else 'false'}."
 
 
-@anchor("G_derivkeys", "system_term_masks")
-def _(repo):
+def _system_constraints_ok(repo):
     """system losses: the constraint loss of unknown i is built from entry i of every per-unknown
     dictionary (derivative keys included); the dynamic terms use the system's own dyn_loss keys"""
     ok = True
@@ -952,7 +961,12 @@ def _(repo):
         e = ast.unparse(find_func(parse(repo, rel), "evaluate", cls))
         if "_set_derivatives(params_dict, self.derivative_keys_dyn_loss.dyn_loss)" not in e:
             ok = False
-    return f"Definition gen_system_terms_use_their_own_mask : bool := {'true' if ok else 'false'}."
+    return ok
+
+
+@anchor("G_derivkeys", "system_term_masks")
+def _(repo):
+    return f"Definition gen_system_terms_use_their_own_mask : bool := {'true' if _system_constraints_ok(repo) else 'false'}."
 
 
 # =============================================================== G_params (C12)
@@ -1117,6 +1131,12 @@ def _(repo):
             and "lambda mse: jax.tree_util.tree_reduce(lambda x, y: x + y, jax.tree_util.tree_leaves(mse))" in csrc)
     out.append(f"Definition gen_sys_constraints_wiring : bool := {'true' if ok_c else 'false'}.")
     return "\n".join(out)
+
+
+@anchor("G_losses", "sys_constraints_per_unknown")
+def _(repo):
+    """the constraint loss of unknown i is built from entry i of every per-unknown dictionary"""
+    return f"Definition gen_sys_constraints_per_unknown : bool := {'true' if _system_constraints_ok(repo) else 'false'}."
 
 
 # =============================================================== G_purity (C20)
